@@ -12,6 +12,9 @@ def run(tier, seed):
     mc = vlib.tlc("FrpsPlugins", cfg, workers="auto", timeout=3000, heap="16g")
     if not mc.ok:
         raise vlib.Infra(f"ideal model violates {mc.violated}\n{mc.out[-2000:]}")
+    dev = vlib.tlc("FrpsPlugins", "MC_FrpsPlugins_dev.cfg", workers=4, timeout=900)
+    if dev.ok or dev.violated != "CloseNotifiesAll":
+        raise vlib.Infra("the deviation CloseStopsAtError is not caught by CloseNotifiesAll: the invariant is vacuous")
     v.add_cov(states=mc.distinct, transitions=mc.generated, exhaustive=True)
     d = vlib.scratch("c15-")
     stats = {}
@@ -21,11 +24,11 @@ def run(tier, seed):
     ok = sc.validate(v, "Trace_FrpsPlugins", (vlib.SPEC / "Trace_FrpsPlugins.cfg").read_text(), tf, "plugins")
     if ok:
         evs = vlib.read_ndjson(tf)
-        v.sample({"cases": [e for e in evs if e.get("ev") == "plg.case" and len(e["chain"]) == 3][:4] + [e for e in evs if e.get("ev") in ("plg.sys", "plg.close")][:6]})
+        v.sample({"cases": [e for e in evs if e.get("ev") == "plg.case" and len(e["chain"]) == 3][:4] + [e for e in evs if e.get("ev") in ("plg.sys", "plg.close", "plg.closecase")][:8]})
     v.add_cov(evaluations=stats.get("case", 0) + stats.get("sys", 0), distinct_nontrivial=stats.get("case", 0) + stats.get("sys", 0),
               rule="component: every chain of 0..3 HTTP plugins x {registered for the operation or not} x 7 per-plugin outcomes (accept unchanged, accept with modified content, reject, HTTP 500, connection reset, "
-                   "malformed JSON, empty 200 body) x 5 operations is executed on the real plugin.Manager against stub plugin servers (quick: all chains up to length 2 and a seeded sample of length 3; thorough: all); "
-                   "system: a real frps with one plugin per operation, each call site (login, new proxy, ping, new work connection, new user connection) driven with every outcome, plus close notifications for a proxy "
+                   "malformed JSON, empty 200 body) x 5 operations (and the close-notification chain, which gates nothing and must reach every registered plugin) is executed on the real plugin.Manager against stub plugin servers (quick: all chains up to length 2 and a seeded sample of length 3; thorough: all); "
+                   "system: a real frps with one plugin per operation, each call site (login, new proxy, ping, new work connection, new user connection) driven with every outcome, plus close notifications to two registered plugins (the first answering with every outcome) for a proxy "
                    "closed by message and one closed by session end; every case is distinct and non-trivial",
               driver_stats=stats)
     v.assumptions += ["stub plugin servers on loopback over plain HTTP; the new-user-connection hook is exercised on the direct tcp accept path"]
